@@ -4,6 +4,7 @@ CONSTANTS
   MaxKK = 4
   MaxRd = 1
   NQ = 3
+  MaxPolls = 2
   MaxLatch = 2
   FileSteps = FALSE
   QKinds = {"past", "exact", "future"}
